@@ -95,3 +95,21 @@ Proof.
     { apply (apply_stores_lookup t s h b Hn). destruct E' as [E'|E']; [left; exact E'|right; apply (Permutation_in _ (Permutation_sym P)); exact E']. }
     congruence.
 Qed.
+
+(** The collision-freedom side condition is exactly a statement about the hash: in a content-addressed
+    store, with writes under the names of their bytes, [nocoll] can fail only if two DIFFERENT byte
+    strings among those stored or written have the same BLAKE2b name. *)
+From Mast Require Import Merkle.
+Theorem nocoll_unless_hash_collision s t :
+  addressed s -> Forall store_named t ->
+  (forall b b', ((exists h, Store.lookup s h = Some b) \/ (exists h, In (EStore h b) t)) ->
+                (exists h, In (EStore h b') t) -> name_of b = name_of b' -> b = b') ->
+  nocoll s t.
+Proof.
+  intros Ha Hn Hinj. apply nocoll_consistent. rewrite Forall_forall in Hn. split.
+  - intros h b Hin. destruct (Store.lookup s h) as [b0|] eqn:E; [|left; reflexivity]. right. f_equal.
+    apply Hinj; [left; exists h; exact E|exists h; exact Hin|].
+    rewrite <- (Ha h b0 E). exact (Hn _ Hin).
+  - intros h b b' H1 H2. apply Hinj; [right; exists h; exact H1|exists h; exact H2|].
+    rewrite <- (Hn _ H1). exact (Hn _ H2).
+Qed.
